@@ -161,7 +161,7 @@ def _make(ns, ZR):
         i = L.var('i')
         return [('bounds', z3.ULE(i, size)), ('none-before', id_absent(reg, i, zid))]
 
-    contract(ZR + '::linearSearchById' + sig_i, pure=True, props=['C10'], requires=_lin_pre, ensures=_id_post,
+    contract(ZR + '::linearSearchById' + sig_i, pure=True, props=['C10', 'C16'], requires=_lin_pre, ensures=_id_post,
              loops={0: LoopSpec(_id_inv, variant=lambda L: L.c.args[1] - L.var('i'))})
 
     # ---- the registrar object ----
@@ -205,7 +205,7 @@ def _make(ns, ZR):
         return [('found-is-exact-and-first', z3.Implies(r != INVALID, z3.And(z3.ULT(r, size), IDG(reg, r) == zid, id_absent(reg, r, zid)))),
                 ('not-found-means-absent', z3.Implies(r == INVALID, id_absent(reg, size, zid)))]
 
-    contract(ZR + '::findIndexForId(unsigned int) const', pure=True, props=['C10'], requires=_method_pre, ensures=_find_id_post)
+    contract(ZR + '::findIndexForId(unsigned int) const', pure=True, props=['C10', 'C16'], requires=_method_pre, ensures=_find_id_post)
 
     def _zi_name_post(c):
         size, reg, srt = _rfields(c.old, c.this)
@@ -231,7 +231,7 @@ def _make(ns, ZR):
         return [('null-iff-absent', z3.Implies(r == 0, id_absent(reg, size, zid))),
                 ('first-entry-with-that-id', z3.Implies(r != 0, z3.Exists([j], z3.And(z3.ULT(j, size), r == ZIG(reg, j), IDG(reg, j) == zid, id_absent(reg, j, zid)))))]
 
-    contract(ZR + '::getZoneInfoForId(unsigned int) const', pure=True, props=['C10'],
+    contract(ZR + '::getZoneInfoForId(unsigned int) const', pure=True, props=['C10', 'C16'],
              requires=lambda c: _method_pre(c) + _nonnull_entries(c), ensures=_zi_id_post)
 
     def _zi_index_post(c):
